@@ -1,8 +1,58 @@
-(* C16 — cancellation only truncates a search.  Only statements, `exact`, and Print Assumptions live here. *)
-From Coq Require Import ZArith List Bool.
-Require Import Pvs.
+(* C16 — cancellation only truncates a search; it never alters results or the engine.
+   Only statements, `exact`, and Print Assumptions live here.  Proofs: CancelFacts.v, CancelEx.v; model: Search.v.
+
+   The model (Search.v) is one function for the cancelled and the uninterrupted search: [analyze_cancel basis cfg k s p] is the Analyze
+   call on engine state s (transposition table, history and response tables, frames left by ANY earlier calls) whose context is
+   cancelled inside its k-th leaf evaluation (the flag reads 1 at every atomic load after that evaluation: in the child loops of
+   pvSearch and zwSearch, in ttPut, and in Analyze after the root search returns); k = 0 is "never".  [analyze_limited basis cfg d s p]
+   is the never-cancelled call with Cfg.Depth = d (Cfg.Depth is read by Analyze's loop bound only).  Results are
+   (state, (pv, value, Stats.Depth, merged Stats, Stats.Canceled)).  Every configuration (precise or not, any table size incl. none,
+   sort on/off through the model's stable stand-in, any evaluation function, any hash basis) is covered: cfg, basis and s are
+   universally quantified.
+
+   Full statement of the property (DESIGN 5.16):
+     cancel_truncates          PROVED below (C16_cancel_truncates + C16_cancel_deepest + C16_cancel_no_move).
+     cancel_preserves_engine   "after a cancelled search the same engine still gives correct results": NOT proved; it is C05's table
+                               validity (tt_valid_preserved) in the state left by analyze_cancel.  It is tested on every run: the two
+                               further searches on the cancelled engine are judged by the exhaustive-negamax / forced-result oracles
+                               and replayed by the model.
+     data-race freedom         not expressible as a theorem about this model (Go memory model); -race run = supporting evidence. *)
+From Coq Require Import NArith ZArith List Bool.
+Require Import Board Move GameOver Eval Search SearchC CancelFacts CancelEx.
+Import ListNotations.
 Open Scope Z_scope.
-(* placeholder until CancelFacts.v is in place *)
-Theorem C16_placeholder_partial : True.
-Proof. exact I. Qed.
-Print Assumptions C16_placeholder_partial.
+
+(* A cancelled call that reports depth d returns exactly the principal variation, value, depth (and merged statistics) of the
+   uninterrupted call limited to depth d on the same engine; that call is not flagged cancelled and is over before the k-th leaf
+   evaluation, i.e. it consists of iterations that were complete before the flag was set. *)
+Theorem C16_cancel_truncates : forall basis cfg k s p sk pv v d acc c,
+  analyze_cancel basis cfg k s p = (sk, (pv, v, d, acc, c)) ->
+  exists s0, analyze_limited basis cfg d s p = (s0, (pv, v, d, acc, false)) /\ cancelled k s0 = false.
+Proof. exact cancel_truncates_fixed. Qed.
+Print Assumptions C16_cancel_truncates.
+
+(* ... and d is the DEEPEST such depth: when the call was cut short (Canceled), every uninterrupted depth-limited call that is over
+   before the k-th leaf evaluation reports a depth <= d. *)
+Theorem C16_cancel_deepest : forall basis cfg k s p sk pv v d acc,
+  analyze_cancel basis cfg k s p = (sk, (pv, v, d, acc, true)) ->
+  forall D' s0 pv' v' d' acc' c',
+  analyze_limited basis cfg D' s p = (s0, (pv', v', d', acc', c')) -> cancelled k s0 = false -> d' <= d.
+Proof. exact cancel_deepest_fixed. Qed.
+Print Assumptions C16_cancel_deepest.
+
+(* No iteration completed on a fresh engine (any table size n): no move, value 0. *)
+Theorem C16_cancel_no_move : forall basis cfg k n p sk pv v acc c,
+  analyze_cancel basis cfg k (new_state n) p = (sk, (pv, v, 0, acc, c)) -> pv = [] /\ v = 0.
+Proof. exact cancel_no_move_fresh. Qed.
+Print Assumptions C16_cancel_no_move.
+
+(* Non-vacuity: on the instantiated model (hash basis regenerated from /repo, winner-only evaluation, empty 3x3 board, depth 2) the
+   call cancelled inside the 20th leaf evaluation is flagged Canceled and keeps the completed first iteration (d > 0, a move), and the
+   call cancelled inside the 5th completes nothing (d = 0). *)
+Theorem C16_cancel_nonvacuous :
+  (exists sk pv v d acc,
+     analyze_cancel Generated.Consts.gen_basis cfg_ex 20 (new_state 0) start3 = (sk, (pv, v, d, acc, true)) /\ 0 < d /\ pv <> []) /\
+  (exists sk pv v acc,
+     analyze_cancel Generated.Consts.gen_basis cfg_ex 5 (new_state 0) start3 = (sk, (pv, v, 0, acc, true))).
+Proof. exact cancel_nonvacuous. Qed.
+Print Assumptions C16_cancel_nonvacuous.
